@@ -87,7 +87,7 @@ fn c15_extremes(seed: u64) -> Scenario {
     g::extremes(seed, "c15_extremes")
 }
 
-pub const ALL: &[&str] = &["C01", "C02", "C03", "C04", "C07", "C08", "C11", "C14", "C15", "C16", "C17"];
+pub const ALL: &[&str] = &["C01", "C02", "C03", "C04", "C05", "C06", "C07", "C08", "C11", "C14", "C15", "C16", "C17", "C18", "C19"];
 
 pub fn families(property: &str) -> Vec<Family> {
     match property {
@@ -101,6 +101,17 @@ pub fn families(property: &str) -> Vec<Family> {
         ],
         "C03" => vec![fam("c03_termination", g::c03, 25_000, 600_000)],
         "C04" => vec![Family { fault_free: true, ..fam("peer_sender_exact", ps_exact, 20_000, 500_000) }, Family { fault_free: true, ..fam("peer_sender_hostile", ps_hostile, 20_000, 500_000) }],
+        "C05" => vec![
+            Family { fault_free: true, ..fam("peer_receiver", pr_generic, 25_000, 600_000) },
+            Family { fault_free: true, ..fam("peer_receiver_no_loss_signal", pr_nosignal, 25_000, 600_000) },
+        ],
+        "C06" => vec![
+            Family { fault_free: true, ..fam("peer_receiver_retx", pr_retx, 30_000, 800_000) },
+            Family { fault_free: true, ..fam("peer_receiver", pr_generic, 10_000, 300_000) },
+            fam("c01_duplex", c01_duplex, 10_000, 300_000),
+        ],
+        "C18" => vec![Family { fault_free: true, ..fam("peer_receiver_nagle", pr_nagle, 40_000, 1_000_000) }, Family { fault_free: true, ..fam("peer_receiver", pr_generic, 10_000, 300_000) }],
+        "C19" => vec![Family { fault_free: true, ..fam("peer_receiver_buffer", pr_buffer, 25_000, 600_000) }, Family { fault_free: true, ..fam("peer_receiver", pr_generic, 10_000, 300_000) }],
         "C07" => vec![Family { fault_free: true, ..fam("peer_sender_exact", ps_exact, 40_000, 1_000_000) }],
         "C08" => vec![fam("c08_cycles", g::c08_cycles, 8_000, 200_000)],
         "C11" => vec![fam("c11_corrupt", g::c11_corrupt, 20_000, 500_000), fam("c11_unknown_ext", g::c11_unknown_ext, 10_000, 300_000), fam("c01_duplex", c01_duplex, 10_000, 200_000)],
@@ -158,12 +169,24 @@ fn c14_oracle(sc: &Scenario, out: &RunOutput) -> OracleResult {
     m
 }
 
+fn c06_oracle(sc: &Scenario, out: &RunOutput) -> OracleResult {
+    if sc.peer.is_some() {
+        oracles::c06::check(sc, out)
+    } else {
+        oracles::c06::check_duplex(sc, out)
+    }
+}
+
 pub fn oracle(property: &str) -> OracleFn {
     match property {
         "C01" => oracles::c01::check,
         "C02" => oracles::c02::check,
         "C03" => oracles::c03::check,
         "C04" => oracles::c04::check,
+        "C05" => oracles::c05::check,
+        "C06" => c06_oracle,
+        "C18" => oracles::c18::check,
+        "C19" => oracles::c19::check,
         "C07" => oracles::c07::check,
         "C08" => oracles::c08::check,
         "C11" => c11_oracle,
@@ -181,6 +204,10 @@ pub fn expected_probes(property: &str) -> Vec<&'static str> {
         "C02" => vec!["drops_fired", "sender_saw_zero_window_with_data", "window_update_dropped", "idle_writes", "idle_shutdowns", "flushes"],
         "C03" => vec!["abort_landed_with_data_or_fin_outstanding", "flush_or_shutdown_ok_claims", "eof_observed", "read_error_observed", "shutdown_error_observed", "fin_lost"],
         "C04" => vec!["endpoint_emissions_checked", "sack_emitted", "out_of_order_held", "window_below_buffer", "fin_delivered_in_sequence"],
+        "C05" => vec!["first_transmissions_checked", "sends_that_filled_the_window", "rto_events", "zero_windows_delivered"],
+        "C06" => vec!["timeout_retransmissions", "fast_retransmissions", "fast_retransmit_triggers", "retransmission_cap_hit", "probe_resegmented"],
+        "C18" => vec!["sub_segment_first_transmissions", "sub_segment_while_unacked"],
+        "C19" => vec!["blocked_writes", "ring_grew", "ring_grew_after_wrapping"],
         "C07" => vec!["delayed_acks", "immediate_acks", "zero_window_reached"],
         "C08" => vec!["connection_tasks_created", "letgo_judged", "closing_packet_lost", "cancel_or_kill", "task_failed_with_error", "too_many_active_connections_seen"],
         "C11" => vec!["emitted_datagrams_checked", "emitted_with_extension", "verdicts_accept_corrupted", "verdicts_reject_corrupted", "unknown_extension_delivered"],
@@ -199,6 +226,10 @@ pub fn rule(property: &str) -> String {
         "C02" => "relevance probe: (a) at least one budgeted drop fired; (b) at least one write or shutdown on an idle connection.",
         "C03" => "relevance probe: a termination fault (cut, kill, RESET, cancel) landed while data or a FIN was outstanding, or a FIN was lost.",
         "C04" => "relevance probe: the endpoint held at least one packet out of order when it emitted a datagram (scripted arrival orders are the 'faults' of this family).",
+        "C05" => "relevance probe: at least one first transmission filled the advertised window (the next segment would not have fitted); scripted ACK/window histories are the 'faults' of this family.",
+        "C06" => "relevance probe: at least one timeout retransmission and one fast (non-timeout) retransmission.",
+        "C18" => "relevance probe: at least one first transmission smaller than the proven segment size.",
+        "C19" => "relevance probe: at least one write blocked on a full ring and the ring grew at least once.",
         "C07" => "relevance probe: at least one delayed and one immediate acknowledgement were emitted (scripted arrival timings are the 'faults' of this family).",
         "C08" => "relevance probe: at least one closing packet (FIN/RESET) was lost and at least one let-go connection was judged against its bound.",
         "C11" => "relevance probe: at least one corrupted datagram reached a real socket's parser (verdict recorded) and at least one emitted datagram was checked.",
